@@ -3,7 +3,8 @@
 (`Token.is_available`), job tokens of recovering jobs through a stub `failure_manager.is_recovering`.
 Tokens with a `copies` list are real CWLFileTokens whose single path is registered in the real DataManager on one primary data
 location per entry (distinct local deployments, related to each other like the copies a transfer makes); entry k says whether
-copy k still exists on disk, so `FileToken.is_available` (any copy exists) runs unmodified."""
+copy k still exists on disk, so `FileToken.is_available` (any copy exists) runs unmodified. Tokens with `items` are real ListTokens /
+ObjectTokens (records) of such tokens (`is_available`: every element is available)."""
 from __future__ import annotations
 
 import asyncio
@@ -17,7 +18,7 @@ async def _run(case: dict) -> dict:
     from streamflow.core.workflow import Job, Token, Workflow
     from streamflow.main import build_context
     from streamflow.recovery.utils import ProvenanceGraph
-    from streamflow.workflow.token import JobToken
+    from streamflow.workflow.token import JobToken, ListToken, ObjectToken
     from streamflow.core.deployment import ExecutionLocation
     LOCAL_LOCATION = "__LOCAL__"
     from streamflow.cwl.token import CWLFileToken
@@ -29,13 +30,16 @@ async def _run(case: dict) -> dict:
         ports = [wf.create_port() for _ in range(max(1, case.get("ports", 3)))]
         await wf.save(context.database)
         toks = {}
-        for t in case["tokens"]:
-            tid = t["id"]
-            if t.get("job"):
-                tok = JobToken(value=Job(name=f"/step{tid}/0", workflow_id=wf.persistent_id, inputs={}, input_directory=None,
-                                         output_directory=None, tmp_directory=None), tag="0", recoverable=bool(t["avail"]))
-            elif "copies" in t:
-                paths = [os.path.join(root, f"loc{k}", f"t{tid}", "out.txt") for k in range(max(1, len(t["copies"])))]
+
+        def make(t: dict, key: str, tag: str):
+            """plain token | file token with `copies` | list / object token of such (`items`, `composite`)"""
+            if "items" in t:
+                subs = [make(x, f"{key}_{k}", tag) for k, x in enumerate(t["items"])]
+                if t.get("composite") == "object":
+                    return ObjectToken(value={f"f{k}": x for k, x in enumerate(subs)}, tag=tag)
+                return ListToken(value=subs, tag=tag)
+            if "copies" in t:
+                paths = [os.path.join(root, f"loc{k}", f"t{key}", "out.txt") for k in range(max(1, len(t["copies"])))]
                 dlocs = []
                 for k, present in enumerate(t["copies"]):
                     loc = (ExecutionLocation(deployment=LOCAL_LOCATION, name=LOCAL_LOCATION, local=True) if k == 0 else
@@ -43,14 +47,19 @@ async def _run(case: dict) -> dict:
                     if present:
                         os.makedirs(os.path.dirname(paths[k]), exist_ok=True)
                         with open(paths[k], "w") as fh:
-                            fh.write(str(tid))
+                            fh.write(key)
                     dlocs.append(context.data_manager.register_path(loc, paths[k], relpath="out.txt"))
                 for d in dlocs[1:]:
                     context.data_manager.register_relation(dlocs[0], d)
-                tok = CWLFileToken(value={"class": "File", "path": paths[0], "basename": "out.txt"}, tag=f"0.{tid}",
-                                   recoverable=bool(t["avail"]))
+                return CWLFileToken(value={"class": "File", "path": paths[0], "basename": "out.txt"}, tag=tag, recoverable=bool(t["avail"]))
+            return Token(value=key, tag=tag, recoverable=bool(t["avail"]))
+        for t in case["tokens"]:
+            tid = t["id"]
+            if t.get("job"):
+                tok = JobToken(value=Job(name=f"/step{tid}/0", workflow_id=wf.persistent_id, inputs={}, input_directory=None,
+                                         output_directory=None, tmp_directory=None), tag="0", recoverable=bool(t["avail"]))
             else:
-                tok = Token(value=tid, tag=f"0.{tid}", recoverable=bool(t["avail"]))
+                tok = make(t, str(tid), f"0.{tid}")
             await tok.save(context.database, port_id=ports[tid % len(ports)].persistent_id)
             toks[tid] = tok
         for t in case["tokens"]:
